@@ -170,13 +170,22 @@ def tlc(ctx, module, cfg=None, workers=8, env_extra=None, timeout=3600, simulate
     log("[tlc] %s: %d generated, %d distinct, %.1fs" % (module, gen, dist, wall))
     bad = ("Error:" in out) or ("error" in out.lower() and "No error has been found" not in out
                                 and "Finished in" not in out)
-    if "is violated" in out and allow_invariant_violation:
+    if ("is violated" in out or "is equal to FALSE" in out) and allow_invariant_violation:
         res["invariant_violated"] = True
         return res
     if "Error:" in out or r.returncode != 0 or not m:
         log(out[-5000:])
         raise ToolError("TLC reported an error on %s (spec bug or design-level finding)" % module)
     return res
+
+
+def expect_rejected(ctx, module, cfg, label, constants=None, workers=8):
+    """Non-vacuity: a named deviation of the model (a design that is known to be wrong, usually the defect that was
+    found in the code) must be REJECTED by TLC; otherwise the invariant would be satisfied by anything."""
+    res = tlc(ctx, module, cfg=cfg, workers=workers, allow_invariant_violation=True, constants=constants)
+    if not res.get("invariant_violated"):
+        raise ToolError("vacuous invariant: the deviation '%s' (%s / %s) is not rejected" % (label, module, cfg))
+    ctx.extra.setdefault("deviation_models_rejected", []).append(label)
 
 
 def apalache(ctx, module, inv, timeout=900):
